@@ -73,3 +73,22 @@ func ShortenGood(msg string) string {
 	}
 	return string(r[:8])
 }
+
+// ---- fresh record
+
+type FileRec struct {
+	Pkg  string
+	Name string
+}
+
+func NewFileRec() *FileRec { return &FileRec{} }
+
+var curRecOfFile = NewFileRec()
+var pkgOfFile string
+
+func NextRecBad()  { curRecOfFile = NewFileRec() }
+func NextRecGood() { curRecOfFile = NewFileRec(); curRecOfFile.Pkg = pkgOfFile }
+func SetPkgOfFile(p string) {
+	pkgOfFile = p
+	curRecOfFile.Pkg = p
+}
